@@ -381,6 +381,12 @@ func (d *V2) Apply(op model.Op) (res model.Result) {
 		return model.Result{Desc: v2Desc(out.Table)}
 	case "AddIndex":
 		ix := op.IndexSchema
+		if ix.ViaHelper {
+			if err := v2client.AddIndex(ctx, c, op.Table, ix.Name, ix.Hash, ix.Range); err != nil {
+				return fail(err)
+			}
+			return model.Result{}
+		}
 		act := &types.CreateGlobalSecondaryIndexAction{IndexName: aws.String(ix.Name), KeySchema: v2KeySchema(ix.Hash, ix.Range),
 			Projection: &types.Projection{ProjectionType: types.ProjectionTypeAll}}
 		if !ix.NoThroughput {
